@@ -19,7 +19,7 @@ def execute(c):
     attr = lib.default_attr(n)
     if op == "longest_path":
         t, pos = lib.mk_tree_len(P, c["el"], attr)
-        p = lib.reused(ToLongestPath(detach=(lib.vid(c) % 2 == 0)), c, t)(t)
+        p = lib.outlives(lib.reused(ToLongestPath(detach=(lib.vid(c) % 2 == 0)), c, t), t, c)
         ids = [int(v) - 100 for v in p["tag"]]
         ok = all((float(p.x()[k]), float(p.y()[k]), float(p.z()[k])) == pos[i] for k, i in enumerate(ids))
         return {"path": ids, "pointsok": int(ok)}
@@ -39,7 +39,7 @@ def execute(c):
     if op == "node_branch":
         return {"branch": [int(i) for i in t.node(c["i"]).branch().origin_id()]}
     if op == "branch_tree":
-        bt = BranchTree.from_tree(t) if lib.vid(c) % 2 else lib.reused(ToBranchTree(), c, t)(t)
+        bt = BranchTree.from_tree(t) if lib.vid(c) % 2 else lib.outlives(lib.reused(ToBranchTree(), c, t), t, c)
         nodes = tags(bt.x())
         attrok = all([int(bt.type()[k]), int(bt.y()[k]), int(bt.z()[k]), int(bt.r()[k])] == attr[i] for k, i in enumerate(nodes))
         remember, pointsok = [], True
